@@ -105,7 +105,7 @@ EXPORT errno_t _wcslwr_s_chk(wchar_t *restrict src, rsize_t slen,
         }
     }
 
-    while (*src && slen) {
+    while (slen && *src) {
         *src = towlower(*src);
         src++;
         slen--;
